@@ -117,6 +117,12 @@ func DoomedScenarios(goAwayInReply bool) []Scenario {
 // be reused and another one leases; the heartbeat's answer races a local reset; the keep-alive's
 // closing timeout (failCountToClose consecutive timeouts; 2 in the keep-alive units) races a lease
 // of the idle connection it closes. Heartbeats are SENT in the sequential prefix only.
+//
+// Not here: the keep-alive closing a connection that carries a request (covered sequentially by the
+// BFS). streamConn.Reset then ranges over a map holding the request stream and the heartbeat
+// stream(s); the rewrite set "proxy" does not make that iteration order a choice point, so the
+// executions would not be reproducible. (Where only heartbeat streams are registered at the close -
+// they have no listeners and behave alike - the order does not matter.)
 func KeepAliveScenarios() []Scenario {
 	return []Scenario{
 		{"heartbeat unanswered: lease vs local reset of the only stream (max 2)", Cfg{2, 0}, []string{"new", "hb:0"}, [][]string{{"lreset:0"}, {"new"}}},
@@ -125,7 +131,6 @@ func KeepAliveScenarios() []Scenario {
 		{"heartbeat answer vs local reset (max 1)", Cfg{1, 0}, []string{"new", "hb:0"}, [][]string{{"hback:0"}, {"lreset:0"}}},
 		{"heartbeat timeout vs local reset vs lease (max 2)", Cfg{2, 0}, []string{"new", "hb:0"}, [][]string{{"hbto:0"}, {"lreset:0"}, {"new"}}},
 		{"closing heartbeat timeout vs lease of the idle connection (max 1)", Cfg{1, 0}, []string{"new", "reply:0", "hb:0", "hbto:0", "hb:0"}, [][]string{{"hbto:1"}, {"new"}}},
-		{"closing heartbeat timeout vs completion (max 1)", Cfg{1, 0}, []string{"new", "hb:0", "hbto:0", "hb:0"}, [][]string{{"hbto:1"}, {"reply:0"}}},
 	}
 }
 
@@ -229,13 +234,24 @@ func schedBody(d Driver, sc Scenario, obs *schedObs) {
 	w.sched = true
 	w.syncConns()
 	for _, ev := range sc.Prefix {
-		if strings.HasPrefix(ev, "hbto:") {
-			// the scheduler may have let the heartbeat's virtual timer fire while the heartbeat was being
-			// sent (a deviation within the prefix): then it has timed out already
-			var k int
-			fmt.Sscanf(ev[5:], "%d", &k)
-			if k < len(w.hbs) && w.hbs[k].state != hbOut {
-				continue
+		if strings.HasPrefix(ev, "hb") {
+			// the scheduler may have let a heartbeat's virtual timer fire while the heartbeat was being
+			// sent (a deviation within the prefix): the heartbeat has timed out already, perhaps before
+			// it reached the wire, and the keep-alive may have closed the connection
+			name, k := ev, 0
+			if i := strings.IndexByte(ev, ':'); i >= 0 {
+				name = ev[:i]
+				fmt.Sscanf(ev[i+1:], "%d", &k)
+			}
+			switch name {
+			case "hb":
+				if k >= len(w.conns) || !w.conns[k].open() {
+					continue
+				}
+			case "hbto", "hback":
+				if k >= len(w.hbs) || !w.hbs[k].c.open() || w.hbs[k].state == hbDone || (name == "hbto" && w.hbs[k].state != hbOut) {
+					continue
+				}
 			}
 		}
 		w.apply(ev)
